@@ -34,6 +34,7 @@ func addSyncIntrinsics() {
 			e.block(s, &waitDesc{kind: "lock", key: k})
 			return tailCall, true
 		}
+		e.preemptPoint(s)
 		s.ghost[k]-- // negative = number of readers
 		return nil, true
 	}
